@@ -127,6 +127,13 @@ func newMonitors(s *Sim) *Monitors {
 		m.primary[p] = true
 	}
 	s.zk.onEvent = m.onZKEvent
+	s.zk.onReply = func(e *ZKEvent) {
+		for _, o := range m.oracles {
+			if r, ok := o.(interface{ onZKReply(e *ZKEvent) }); ok {
+				r.onZKReply(e)
+			}
+		}
+	}
 	return m
 }
 
